@@ -30,11 +30,11 @@ theorem submit_after_deps (st st' : St) (batch : List Nat) (w : Nat)
   simp only [step] at h
   split at h
   · rename_i hc
-    simp only [Bool.and_eq_true, List.all_eq_true, ready, Bool.not_eq_true', List.contains_eq_mem,
+    simp only [Bool.and_eq_true, List.all_eq_true, Bool.not_eq_true', List.contains_eq_mem,
       decide_eq_false_iff_not, decide_eq_true_eq] at hc
-    refine ⟨fun s hs d hd => (hc.1.1.2 s hs).1 d hd, ?_, fun s hs => ?_⟩
+    refine ⟨fun s hs d hd => ((ready_spec g st s).mp (hc.1.1.2 s hs)).2.1 d hd, ?_, fun s hs => ?_⟩
     · simpa using hc.2
-    · simpa using (hc.1.1.2 s hs).2
+    · exact ((ready_spec g st s).mp (hc.1.1.2 s hs)).2.2
   · cases h
 
 /-- **once**: no SCC is started (walked or submitted) twice, under any schedule -/
@@ -56,20 +56,19 @@ theorem once (trace : List Event) : ∀ (st st' : St), st.started.Nodup →
         split at hs
         · rename_i hr
           injection hs with hs; subst hs
-          simp only [ready, Bool.and_eq_true, Bool.not_eq_true', List.contains_eq_mem, decide_eq_false_iff_not] at hr
-          exact List.nodup_cons.mpr ⟨hr.2, hn⟩
+          exact List.nodup_cons.mpr ⟨((ready_spec g st s).mp hr).2.2, hn⟩
         · cases hs
       | submit batch w =>
         simp only [step] at hs
         split at hs
         · rename_i hc
           injection hs with hs; subst hs
-          simp only [Bool.and_eq_true, List.all_eq_true, ready, Bool.not_eq_true', List.contains_eq_mem,
+          simp only [Bool.and_eq_true, List.all_eq_true, Bool.not_eq_true', List.contains_eq_mem,
             decide_eq_false_iff_not, decide_eq_true_eq] at hc
           refine List.nodup_append.mpr ⟨hc.1.2, hn, ?_⟩
           intro a ha b hb hab
           subst hab
-          exact (hc.1.1.2 a ha).2 hb
+          exact ((ready_spec g st a).mp (hc.1.1.2 a ha)).2.2 hb
         · cases hs
       | ifaceDone w =>
         simp only [step] at hs
@@ -82,8 +81,82 @@ theorem once (trace : List Event) : ∀ (st st' : St), st.started.Nodup →
         · injection hs with hs; subst hs; exact hn
         · cases hs
 
+/-- **terminates**: under every schedule the coordinator performs at most `4 · (number of SCCs)` events —
+    no accepted trace is longer; in particular there is no infinite execution. -/
+theorem terminates (trace : List Event) (st : St) (h : run g F St.init trace = some st) :
+    trace.length ≤ 4 * g.size := by
+  have := run_measure g F trace St.init st h
+  have h0 : measure g St.init = 4 * g.size := by
+    have hf : ∀ l : List Nat, l.filter (fun _ => true) = l := by
+      intro l; induction l with
+      | nil => rfl
+      | cons a l ih => simp [List.filter_cons, ih]
+    simp [measure, unstarted, unstartedL, St.init, hf]
+  omega
+
+/-- a busy worker always has its next reply enabled: interface-done while its batch is in flight,
+    implementation-done afterwards (no worker is ever stuck) -/
+theorem worker_never_stuck (st : St) (w : Nat) (hw : w ∈ st.busy) :
+    (step g F st (.ifaceDone w)).isSome = true ∨ (step g F st (.implDone w)).isSome = true := by
+  cases hf : st.inflight.find? (fun p => p.1 == w) with
+  | some p => left; obtain ⟨a, b⟩ := p; simp [step, hf]
+  | none =>
+    right
+    have : st.inflight.any (fun p => p.1 == w) = false := by
+      rw [List.find?_eq_none] at hf
+      simp only [List.any_eq_false]
+      intro x hx; exact hf x hx
+    simp [step, hw, this]
+
+/-- one step of the argument: with the bookkeeping invariant, the least unfinished SCC is either in flight
+    (its worker's interface reply is enabled) or ready (it can be walked / submitted) -/
+theorem no_deadlock_step (ha : Acyclic g) (st : St)
+    (hinv : ∀ s ∈ st.started, (st.res s).isSome = true ∨ ∃ p ∈ st.inflight, ∃ v, (s, v) ∈ p.2)
+    (s : Nat) (hs : s < g.size) (hnone : st.res s = none)
+    (hmin : ∀ d, d < s → (st.res d).isSome = true) :
+    ∃ e, (step g F st e).isSome = true := by
+  by_cases hst : s ∈ st.started
+  · rcases hinv s hst with h | ⟨p, hp, v, _⟩
+    · simp [hnone] at h
+    · refine ⟨.ifaceDone p.1, ?_⟩
+      cases hf : st.inflight.find? (fun q => q.1 == p.1) with
+      | some q => obtain ⟨a, b⟩ := q; simp [step, hf]
+      | none =>
+        rw [List.find?_eq_none] at hf
+        exact absurd (by simp) (hf p hp)
+  · refine ⟨.fresh s, ?_⟩
+    have : ready g st s = true :=
+      (ready_spec g st s).mpr ⟨hs, fun d hd => hmin d (ha s d hd), hst⟩
+    simp [step, this]
+
+/-- **no_deadlock**: in every state reachable under any schedule, as long as some SCC is unfinished some
+    event is enabled.  Together with `terminates` (at most 4·size events): every maximal execution is
+    finite and ends with all SCCs finished. -/
+theorem no_deadlock (ha : Acyclic g) (trace : List Event) (st : St)
+    (h : run g F St.init trace = some st) (s : Nat) (hs : s < g.size) (hnone : st.res s = none) :
+    ∃ e, (step g F st e).isSome = true := by
+  have hb := (run_book g F trace St.init st book_init h).1
+  -- the least unfinished SCC
+  have hex : ∃ m, m < g.size ∧ st.res m = none ∧ ∀ d, d < m → (st.res d).isSome = true := by
+    induction s using Nat.strongRecOn with
+    | _ s ih =>
+      by_cases hall : ∀ d, d < s → (st.res d).isSome = true
+      · exact ⟨s, hs, hnone, hall⟩
+      · have : ∃ d, d < s ∧ st.res d = none := by
+          apply Classical.byContradiction
+          intro hcon
+          apply hall
+          intro d hd
+          cases hv : st.res d with
+          | some v => rfl
+          | none => exact absurd ⟨d, hd, hv⟩ hcon
+        obtain ⟨d, hd, hdn⟩ := this
+        exact ih d hd (by omega) hdn
+  obtain ⟨m, hm, hmn, hmin⟩ := hex
+  exact no_deadlock_step g F ha st hb m hm hmn hmin
+
 -- non-vacuity: a diamond 0 ← 1, 0 ← 2, {1,2} ← 3 processed by two workers in an interleaved schedule
-def gD : Graph := { deps := fun s => if s = 1 then [0] else if s = 2 then [0] else if s = 3 then [1, 2] else [] }
+def gD : Graph := { size := 4, deps := fun s => if s = 1 then [0] else if s = 2 then [0] else if s = 3 then [1, 2] else [] }
 def FD : Nat → Env → Val := fun s e => s + ((gD.deps s).map (fun d => (e d).getD 0)).foldl (· + ·) 0
 def traceD : List Event :=
   [.fresh 0, .submit [2] 1, .submit [1] 0, .ifaceDone 0, .ifaceDone 1, .implDone 1, .submit [3] 1, .implDone 0, .ifaceDone 1]
